@@ -41,6 +41,42 @@ Fixpoint json_eqb (a b : json) {struct a} : bool :=
   | _, _ => false
   end.
 
+(* Python's == on JSON values: bool is an int (False == 0, True == 1) and dict comparison ignores the
+   insertion order.  (Floats are opaque here: 1.0 == 1 is not modelled.) *)
+Fixpoint py_eqb (a b : json) {struct a} : bool :=
+  match a, b with
+  | JNull, JNull => true
+  | JBool x, JBool y => Bool.eqb x y
+  | JBool x, JInt y => Z.eqb y (if x then 1 else 0)%Z
+  | JInt y, JBool x => Z.eqb y (if x then 1 else 0)%Z
+  | JInt x, JInt y => Z.eqb x y
+  | JFloat x, JFloat y => String.eqb x y
+  | JStr x, JStr y => String.eqb x y
+  | JList xs, JList ys =>
+      (fix go (xs ys : list json) {struct xs} : bool :=
+         match xs, ys with
+         | [], [] => true
+         | x :: xs', y :: ys' => py_eqb x y && go xs' ys'
+         | _, _ => false
+         end) xs ys
+  | JDict xs, JDict ys =>
+      Nat.eqb (length xs) (length ys) &&
+      (fix go (xs : list (string * json)) {struct xs} : bool :=
+         match xs with
+         | [] => true
+         | (k, x) :: xs' =>
+             match (fix find (l : list (string * json)) : option json :=
+                      match l with
+                      | [] => None
+                      | (k', y) :: l' => if String.eqb k k' then Some y else find l'
+                      end) ys with
+             | Some y => py_eqb x y
+             | None => false
+             end && go xs'
+         end) xs
+  | _, _ => false
+  end.
+
 (* Python truthiness of a JSON value (bool(v)). *)
 Definition truthy (v : json) : bool :=
   match v with
